@@ -16,6 +16,7 @@ import (
 	"rare/cmd"
 	"rare/pkg/extractor"
 	"rare/pkg/matchers/dissect"
+	"rare/pkg/matchers/fastregex"
 )
 
 // ---- protocol
@@ -23,15 +24,21 @@ import (
 //	json <named 0|1> <numbered 0|1> <name table> <indices> <line>
 //	    name table: `;`-joined `<hex name>:<group index>` entries, `.` when empty
 //	    indices:    `,`-joined decimal ints (FindSubmatchIndex result), `.` when empty
+//	key <hex key> <name table> <indices> <line>                    GetKey(key) for ".", "#", ".#", "#."
 //	special <matches hexlist> <keys hexlist> <values hexlist>      (cmd.buildSpecialKeyJson)
+//	nt regex <SubexpNames hexlist>          the table fastregex builds for an expression with these groups
+//	nt dissect <token names hexlist> <skipped 0|1,...>   the table dissect.CompileEx builds (or `conflict`)
+//	san <hex bytes>                         U+FFFD substitution as Go's own decoder does it
 //
-// answer:  ok <hex text> v=<0|1> m=<members>
+// answer:  ok <hex text> v=<0|1> u=<0|1> m=<members>
 //
 //	    v: the text is one valid JSON value (encoding/json on this side, the RFC 8259 parser of
 //	       Rare.Spec.C16 on the Lean side)
+//	    u: the text is well-formed UTF-8 (utf8.Valid here, the RFC 3629 DFA there)
 //	    m: decoded members, hexlist of key,value,key,value...; value = tag byte + payload
-//	       (s<string>  n<mantissa>e<exp10>  t  f  z);  `nonutf8` when the text is not valid UTF-8
-//	       (encoding/json substitutes U+FFFD there, the byte-level Lean parser does not), `x` when v=0
+//	       (s<string>  n<mantissa>e<exp10>  t  f  z); `x` when v=0.  When u=0 the members are those
+//	       encoding/json decodes (it substitutes U+FFFD for every ill-formed byte); the Lean side
+//	       parses the text after its own `sanitize`
 //	nondeterministic   the same call gave two different texts (map iteration order leaked)
 //	panic
 const c16Repeats = 32
@@ -91,26 +98,27 @@ func c16Num(lit string) string {
 // c16Describe decodes text with encoding/json (independent validity / decoding oracle).
 func c16Describe(text string) string {
 	if !json.Valid([]byte(text)) {
-		return fmt.Sprintf("ok %s v=0 m=x", HexS(text))
+		return fmt.Sprintf("ok %s v=0 u=x m=x", HexS(text))
 	}
+	u := 1
 	if !utf8.ValidString(text) {
-		return fmt.Sprintf("ok %s v=1 m=nonutf8", HexS(text))
+		u = 0
 	}
 	dec := json.NewDecoder(bytes.NewReader([]byte(text)))
 	dec.UseNumber()
 	tok, err := dec.Token()
 	if d, ok := tok.(json.Delim); err != nil || !ok || d != '{' {
-		return fmt.Sprintf("ok %s v=1 m=notobject", HexS(text))
+		return fmt.Sprintf("ok %s v=1 u=%d m=notobject", HexS(text), u)
 	}
 	var mem []string
 	for dec.More() {
 		k, err := dec.Token()
 		if err != nil {
-			return fmt.Sprintf("ok %s v=1 m=tokerr", HexS(text))
+			return fmt.Sprintf("ok %s v=1 u=%d m=tokerr", HexS(text), u)
 		}
 		v, err := dec.Token()
 		if err != nil {
-			return fmt.Sprintf("ok %s v=1 m=tokerr", HexS(text))
+			return fmt.Sprintf("ok %s v=1 u=%d m=tokerr", HexS(text), u)
 		}
 		mem = append(mem, k.(string))
 		switch x := v.(type) {
@@ -127,10 +135,10 @@ func c16Describe(text string) string {
 		case nil:
 			mem = append(mem, "z")
 		default:
-			return fmt.Sprintf("ok %s v=1 m=nested", HexS(text))
+			return fmt.Sprintf("ok %s v=1 u=%d m=nested", HexS(text), u)
 		}
 	}
-	return fmt.Sprintf("ok %s v=1 m=%s", HexS(text), HexListS(mem))
+	return fmt.Sprintf("ok %s v=1 u=%d m=%s", HexS(text), u, HexListS(mem))
 }
 
 func c16Repeat(f func() string) (res string) {
@@ -177,6 +185,48 @@ func c16Run(f []string) string {
 			}
 			return extractor.VerifContext(line, idx, nt).GetKey(k)
 		})
+	case "key":
+		if len(f) != 5 {
+			return "bad-args"
+		}
+		key := string(UnHex(f[1]))
+		switch key {
+		case ".", "#", ".#", "#.":
+		default:
+			return "notjson" // the generator only sends the four JSON keys
+		}
+		nt := c16ParseNT(f[2])
+		idx := c16ParseInts(f[3])
+		line := string(UnHex(f[4]))
+		return c16Repeat(func() string { return extractor.VerifContext(line, idx, nt).GetKey(key) })
+	case "nt":
+		return c16RunNT(f)
+	case "san":
+		if len(f) != 2 {
+			return "bad-args"
+		}
+		b := string(UnHex(f[1]))
+		u := 0
+		if utf8.ValidString(b) {
+			u = 1
+		}
+		// conversion to runes and back: Go's decoder yields U+FFFD for every byte that does not begin a
+		// well-formed sequence, exactly as `for range` and encoding/json do
+		viaRunes := string([]rune(b))
+		var sb strings.Builder
+		for i := 0; i < len(b); {
+			r, size := utf8.DecodeRuneInString(b[i:])
+			if r == utf8.RuneError && size == 1 {
+				sb.WriteString("\xef\xbf\xbd")
+			} else {
+				sb.WriteString(b[i : i+size])
+			}
+			i += size
+		}
+		if sb.String() != viaRunes {
+			return "oracle-disagree"
+		}
+		return fmt.Sprintf("ok %s u=%d", HexS(viaRunes), u)
 	case "special":
 		if len(f) != 4 {
 			return "bad-args"
@@ -198,6 +248,103 @@ func c16Run(f []string) string {
 	return "bad-op"
 }
 
+func c16ShowTable(t map[string]int) string {
+	if len(t) == 0 {
+		return "ok ."
+	}
+	var names []string
+	for k := range t {
+		names = append(names, k)
+	}
+	sort.Strings(names)
+	parts := make([]string, len(names))
+	for i, n := range names {
+		parts[i] = fmt.Sprintf("%s:%d", HexS(n), t[n])
+	}
+	return "ok " + strings.Join(parts, ";")
+}
+
+// c16RegexFor builds an expression whose SubexpNames() is exactly names (names[0] = whole match).
+func c16RegexFor(names []string) string {
+	var sb strings.Builder
+	for i, n := range names {
+		if i == 0 {
+			continue
+		}
+		if n == "" {
+			sb.WriteString("(x?)")
+		} else {
+			sb.WriteString("(?P<" + n + ">x?)")
+		}
+	}
+	return sb.String()
+}
+
+func c16RunNT(f []string) string {
+	switch {
+	case len(f) == 3 && f[1] == "regex":
+		names := UnHexListS(f[2])
+		if len(names) == 0 || names[0] != "" {
+			return "bad-case"
+		}
+		pat := c16RegexFor(names)
+		ref, err := regexp.Compile(pat)
+		if err != nil {
+			return "bad-case"
+		}
+		got := ref.SubexpNames()
+		if len(got) != len(names) {
+			return "bad-case"
+		}
+		for i := range got {
+			if got[i] != names[i] {
+				return "bad-case"
+			}
+		}
+		re, err := fastregex.CompileEx(pat, false)
+		if err != nil {
+			return "bad-case"
+		}
+		return c16ShowTable(re.CreateInstance().SubexpNameTable())
+	case len(f) == 4 && f[1] == "dissect":
+		names := UnHexListS(f[2])
+		var skips []bool
+		if f[3] != "." {
+			for _, p := range strings.Split(f[3], ",") {
+				skips = append(skips, p == "1")
+			}
+		}
+		if len(skips) != len(names) {
+			return "bad-args"
+		}
+		var pat strings.Builder
+		for i, n := range names {
+			if strings.ContainsAny(n, "}%") || (!skips[i] && (n == "" || n[0] == '?')) {
+				return "bad-case"
+			}
+			if skips[i] {
+				if n == "" {
+					pat.WriteString("%{}")
+				} else {
+					pat.WriteString("%{?" + n + "}")
+				}
+			} else {
+				pat.WriteString("%{" + n + "}")
+			}
+			pat.WriteString(" | ")
+		}
+		d, err := dissect.CompileEx(pat.String(), false)
+		if err == dissect.ErrorKeyConflict {
+			return "conflict"
+		}
+		if err != nil {
+			return "bad-case"
+		}
+		return c16ShowTable(d.SubexpNameTable())
+	}
+	return "bad-args"
+}
+
 // ---- generator
 
 var c16Texts = []string{
@@ -211,6 +358,39 @@ var c16Texts = []string{
 	"\xe0\xa0\x80", "\xe0\x9f\xbf", "\xed\x9f\xbf", "\xee\x80\x80", "\xf0\x90\x80\x80", "\xf0\x8f\xbf\xbf", "\xf4\x8f\xbf\xbf",
 	"\xf5\x80\x80\x80", "\xc2\x80", "\xc1\xbf", "\xdf\xbf", "\xe2\x82", "\xe2\x82\xac", "\x80", "\xbf", "fal\u017fe", "\u212a",
 	"{", "}", "{\"a\": 1}", "[1,2]", ",", ":", ", ", "\": \"", "/", "</script>", "'", "1 2", " 1", "1 ", "１",
+	// number shapes a decimal reader might accept but the writer must keep as strings (or not)
+	"+0", "-0", "-0.0", "+1.5", "1e400", "1E400", "1e-400", "1e+5", "1E+5", "0e0", "5.", ".5", "0.", "0.0", "00.0", "0.00", "000",
+	"1.e5", "1e", "e5", "1e5.5", "0x", "1,5", "1.5.", "..", ".", "-", "+", "-.5", "1.-5", "٣", "1\x00", "1\n", "\t1",
+	"9007199254740993", "18446744073709551616", "0.1000000000000000055511151231257827",
+	// booleans: near misses
+	"tru", "truee", "TRUE ", "tr\u00fce", "fa\u017fe", "fal\u017f", "\u212a", "t\x00ue", "yes", "True\n", "fALSe", "tRUe",
+	// code points JSON readers treat specially, DEL, escapes written out as text, surrogates as raw bytes
+	"\u2028", "\u2029", "a\u2028b", "\u0085", "\ufeff", "\ufffe", "\uffff", "\x7f", "\x7f\x7f", "\\ud800", "\\udc00\\ud800", "\\u0000", "\\u12", "\\x41",
+	"\xed\xa0\x80\xed\xb0\x80", "\xed\xbf\xbf", "\xf0\x9f\x98", "\xf0\x9f", "\xf8\x88\x80\x80\x80", "\xfe", "\xe2\x28\xa1", "\xc2", "a\xc2", "\xc2\"", "\xe2\x82\"",
+}
+
+// c16Long: digit strings far beyond any machine number, for the numeric path
+func c16Long(r *Rand) string {
+	n := Pick(r, []int{20, 40, 310, 400, 1000})
+	b := make([]byte, n)
+	for i := range b {
+		b[i] = byte('0' + r.Intn(10))
+	}
+	if r.Chance(1, 2) && b[0] == '0' {
+		b[0] = '7'
+	}
+	s := string(b)
+	switch r.Intn(5) {
+	case 0:
+		return s + "." + s
+	case 1:
+		return "0." + s
+	case 2:
+		return s + "e400"
+	case 3:
+		return "-" + s
+	}
+	return s
 }
 
 var c16Names = []string{
@@ -263,6 +443,11 @@ func c16Text(r *Rand) string {
 		return c16RandDigits(r)
 	case 4:
 		return Pick(r, c16Texts) + Pick(r, c16Texts)
+	case 5:
+		if r.Chance(1, 6) {
+			return c16Long(r)
+		}
+		return Pick(r, c16Texts)
 	default:
 		return Pick(r, c16Texts)
 	}
@@ -345,8 +530,10 @@ func c16GenJSON(r *Rand) string {
 		seen[n] = true
 		names = append(names, n)
 		g := 1 + r.Intn(ngroups+1)
-		if r.Chance(1, 10) {
-			g = Pick(r, []int{0, -1, ngroups + 1, ngroups + 5, 1000})
+		if r.Chance(1, 8) {
+			// group numbers no matcher produces, up to the ends of int: idx*2 wraps from 2^62 on
+			g = Pick(r, []int{0, -1, ngroups + 1, ngroups + 5, 1000, 1 << 31, 1<<62 - 1, 1 << 62, 1<<62 + 1, 1<<62 + 1<<61,
+				1<<63 - 1, -1 << 63, -1<<63 + 1, -1 << 62, 3 << 61})
 		}
 		nidx = append(nidx, g)
 	}
@@ -437,6 +624,94 @@ func c16GenSpecial(r *Rand) string {
 	return fmt.Sprintf("special %s %s %s", HexListS(matches), HexListS(keys), HexListS(vals))
 }
 
+// a case whose name table and index slice come from the real regex wrapper: named groups with
+// numeric names (collide with the numbered members), repeated names, optional groups
+func c16GenRegex(r *Rand) (string, bool) {
+	n := 1 + r.Intn(4)
+	var pat, line strings.Builder
+	for i := 0; i < n; i++ {
+		name := Pick(r, []string{"", "a", "b", "a", "n1", "0", "1", "2", "3", "x_1", "Z", "01"})
+		body := Pick(r, []string{`\w+`, `\d+`, `[^|]*`, `\S*`, `[0-9.]+`})
+		opt := Pick(r, []string{"", "", "?"})
+		if name == "" {
+			pat.WriteString("(" + body + ")" + opt)
+		} else {
+			pat.WriteString("(?P<" + name + ">" + body + ")" + opt)
+		}
+		pat.WriteString(`\|?`)
+		if r.Chance(4, 5) {
+			line.WriteString(strings.ReplaceAll(strings.ReplaceAll(c16Text(r), "|", "_"), "\n", "_"))
+		}
+		line.WriteString("|")
+	}
+	re, err := fastregex.CompileEx(pat.String(), false)
+	if err != nil {
+		return "", false
+	}
+	inst := re.CreateInstance()
+	ix := inst.FindSubmatchIndex([]byte(line.String()))
+	if ix == nil {
+		return "", false
+	}
+	var names []string
+	var nidx []int
+	for k, v := range inst.SubexpNameTable() {
+		names = append(names, k)
+		nidx = append(nidx, v)
+	}
+	sort.Sort(&c16ByName{names, nidx})
+	key := Pick(r, []string{".", "#", ".#", "#."})
+	return fmt.Sprintf("key %s %s %s %s", HexS(key), c16NT(names, nidx), c16Ints(ix), HexS(line.String())), true
+}
+
+func c16GenNT(r *Rand) string {
+	if r.Bool() {
+		names := []string{""}
+		for i := r.Intn(6); i > 0; i-- {
+			names = append(names, Pick(r, []string{"", "", "a", "b", "c", "a", "1", "0", "x_1", "A", "a1"}))
+		}
+		return "nt regex " + HexListS(names)
+	}
+	var names, skips []string
+	for i := r.Intn(6); i > 0; i-- {
+		n := strings.NewReplacer("}", "", "%", "", "{", "").Replace(c16Name(r))
+		if r.Chance(1, 3) {
+			n = Pick(r, []string{"a", "b", "a", "?a", "", "1"}) // repeated keys: ErrorKeyConflict unless skipped
+		}
+		skip := r.Chance(1, 4)
+		if !skip && (n == "" || n[0] == '?') {
+			n = "k" + n
+		}
+		names = append(names, n)
+		if skip {
+			skips = append(skips, "1")
+		} else {
+			skips = append(skips, "0")
+		}
+	}
+	sk := "."
+	if len(skips) > 0 {
+		sk = strings.Join(skips, ",")
+	}
+	return fmt.Sprintf("nt dissect %s %s", HexListS(names), sk)
+}
+
+// the same structured case through GetKey with one of the four key spellings
+func c16AsKey(r *Rand, c string) string {
+	f := strings.Fields(c)
+	if len(f) != 6 || f[0] != "json" {
+		return c
+	}
+	key := "."
+	switch f[1] + f[2] {
+	case "01":
+		key = "#"
+	case "11":
+		key = Pick(r, []string{".#", "#."})
+	}
+	return fmt.Sprintf("key %s %s %s %s", HexS(key), f[3], f[4], f[5])
+}
+
 func c16Gen(r *Rand, tier string) []string {
 	n := 4000
 	if tier == "thorough" {
@@ -453,6 +728,18 @@ func c16Gen(r *Rand, tier string) []string {
 			} else {
 				out = append(out, c16GenJSON(r))
 			}
+		case i%8 == 5:
+			if c, ok := c16GenRegex(r); ok {
+				out = append(out, c)
+			} else {
+				out = append(out, c16AsKey(r, c16GenJSON(r)))
+			}
+		case i%16 == 4:
+			out = append(out, c16GenNT(r))
+		case i%16 == 12:
+			out = append(out, "san "+HexS(c16Text(r)+c16RandBytes(r)))
+		case i%8 == 3:
+			out = append(out, c16AsKey(r, c16GenJSON(r)))
 		default:
 			out = append(out, c16GenJSON(r))
 		}
@@ -463,6 +750,7 @@ func c16Gen(r *Rand, tier string) []string {
 		out = append(out, fmt.Sprintf("json 0 1 . 0,1 %s", HexS(s)))
 		out = append(out, fmt.Sprintf("json 1 0 %s:0 0,1 61", HexS(s)))
 		out = append(out, fmt.Sprintf("special %s %s %s", HexS(s), HexS(s), HexS(s)))
+		out = append(out, fmt.Sprintf("san %s", HexS("a"+s+"\xa9")))
 	}
 	if tier == "thorough" {
 		// exhaustive: all strings over a numeric-shape alphabet up to length 5 as the only capture
@@ -483,6 +771,9 @@ func c16Gen(r *Rand, tier string) []string {
 		for a := 0; a < 256; a++ {
 			for b := 0; b < 256; b++ {
 				out = append(out, fmt.Sprintf("json 0 1 . 0,2 %s", Hex([]byte{byte(a), byte(b)})))
+				if a >= 0x80 {
+					out = append(out, fmt.Sprintf("san %s", Hex([]byte{byte(a), byte(b), 0x80, 0x41})))
+				}
 			}
 		}
 		for _, a := range []byte{0xe0, 0xe1, 0xec, 0xed, 0xee, 0xef, 0xf0, 0xf1, 0xf3, 0xf4, 0xf5} {
@@ -490,6 +781,7 @@ func c16Gen(r *Rand, tier string) []string {
 				for _, c := range []byte{0x7f, 0x80, 0xbf, 0xc0} {
 					out = append(out, fmt.Sprintf("json 0 1 . 0,3 %s", Hex([]byte{a, byte(b), c})))
 					out = append(out, fmt.Sprintf("json 0 1 . 0,4 %s", Hex([]byte{a, byte(b), c, 0x80})))
+					out = append(out, fmt.Sprintf("san %s", Hex([]byte{a, byte(b), c, 0x80, a})))
 				}
 			}
 		}
@@ -518,11 +810,27 @@ func c16Stats(cases []string) map[string]int {
 	for _, c := range cases {
 		f := strings.Fields(c)
 		st["op."+f[0]]++
+		if f[0] == "nt" && len(f) > 1 {
+			st["nt."+f[1]]++
+		}
+		if f[0] == "key" && len(f) == 5 {
+			k := string(UnHex(f[1]))
+			st["key."+k]++
+			f = []string{"json", "k", k, f[2], f[3], f[4]}
+		}
 		if f[0] != "json" || len(f) != 6 {
 			continue
 		}
 		st["json.flags."+f[1]+f[2]]++
 		nt := c16ParseNT(f[3])
+		for k, v := range nt {
+			if v >= 1<<62 || v < 0 {
+				st["name.groupNumberHugeOrNegative"]++
+			}
+			if _, err := strconv.Atoi(k); err == nil {
+				st["name.isNumeral"]++
+			}
+		}
 		st[fmt.Sprintf("json.named=%d", len(nt))]++
 		for k := range nt {
 			if strings.ContainsAny(k, "\"\\") {
@@ -566,6 +874,8 @@ func c16Stats(cases []string) map[string]int {
 				st["capture.jsonNumber"]++
 			case strings.EqualFold(g, "true") || strings.EqualFold(g, "false"):
 				st["capture.boolWord"]++
+			case len(g) >= 20 && c16reNumLike.MatchString(g):
+				st["capture.longNumberLike"]++
 			case c16reNumLike.MatchString(g):
 				st["capture.numberLikeButString"]++
 			}
